@@ -156,7 +156,7 @@ Section Filter.
     rewrite cross_cons, fP_app, IH. unfold fD at 2. simpl.
     assert (E : fP (map (fun y : string * Q => (fst x, fst y, (snd x + snd y)%Q)) b) =
                 if k (fst x) then map (fun y : string * Q => (fst x, fst y, (snd x + snd y)%Q)) (fD b) else []).
-    { unfold fP, fD. destruct (k (fst x)) eqn:Ex.
+    { clear IH. unfold fP, fD. destruct (k (fst x)) eqn:Ex.
       - induction b as [|y b IHb]; simpl; auto. rewrite Ex. simpl.
         destruct (k (fst y)); simpl; now rewrite IHb.
       - induction b as [|y b IHb]; simpl; auto. rewrite Ex. simpl. exact IHb. }
@@ -216,9 +216,8 @@ Qed.
 Lemma fP_fP k1 k2 l : fP k1 (fP k2 l) = fP (fun x => k1 x && k2 x) l.
 Proof.
   unfold fP. induction l as [|x l IH]; simpl; auto.
-  destruct (k2 (fst (fst x))), (k2 (snd (fst x))); simpl; rewrite ?andb_true_r, ?andb_false_r; simpl;
-    try (destruct (k1 (fst (fst x))), (k1 (snd (fst x))); simpl; now rewrite IH); try exact IH.
-  destruct (k1 (fst (fst x))); simpl; exact IH.
+  destruct (k2 (fst (fst x))), (k2 (snd (fst x))), (k1 (fst (fst x))) eqn:E1, (k1 (snd (fst x))) eqn:E2;
+    simpl; rewrite ?E1, ?E2; simpl; rewrite ?IH; reflexivity.
 Qed.
 Lemma fP_ext k1 k2 l : (forall x, k1 x = k2 x) -> fP k1 l = fP k2 l.
 Proof. intros H. unfold fP. apply filter_ext. intros x. now rewrite !H. Qed.
